@@ -71,6 +71,7 @@ OutValid(c, pd) ==
   ELSE Accept(GwVer, h, pd)
 
 Match(e, optLine) ==
+  /\ Clause("observable", ~e.unobservable)      \* the driver could read the library's state after the step
   /\ Clause("exc",     InP("exc")     => e.exc = exc')
   /\ Clause("out",     InP("out")     => e.out = CmdsSeq(out'))
   \* the link: what reaches the connection in a step is what was handed to transport.send if the link is up; with the link
